@@ -92,13 +92,20 @@ def gen_case(rng, tier):
             prelude.append([fb, fa])
     elif r < 0.4 and max_n <= 40:
         prelude.append(list(dgmgen.gen_pair(rng, min(max_n, 8), allow_inf=False)))
-    return {
+    u8 = rng.random() < 0.08
+    if u8:
+        A, B = dgmgen.gen_u8_pair(rng, max_n)
+        prelude = []
+    case_ = {
         "inputs": {"dgm1": A, "dgm2": B, "rep1": dgmgen.representation(rng, A),
                    "rep2": dgmgen.representation(rng, B), "prelude": prelude},
         "config": {"set_order": "sim", "modes": [rng.choice(mc.ORDER_MODES) for _ in range(k)],
                    "warn_filter": rng.choice(mc.WARN_FILTERS), "prewarm_registry": rng.random() < 0.3},
         "ops": [],
     }
+    if u8:
+        case_["inputs"]["rep1"] = case_["inputs"]["rep2"] = "u8"
+    return case_
 
 
 def case_key(inp):
